@@ -73,7 +73,8 @@ REQUIRED = [
     'tcp_RTTE_INITIAL_RTO', 'tcp_RTTE_MIN_RTO', 'tcp_RTTE_MAX_RTO',
     'neigh_SILENT_TIME', 'neigh_ENTRY_LIFETIME', 'meta_DISCOVERY_SILENT_TIME',
     'dns_RETRANSMIT_DELAY', 'dns_MAX_RETRANSMIT_DELAY', 'dns_RETRANSMIT_TIMEOUT', 'dns_DNS_PORT',
-    'dhcp_DEFAULT_LEASE_DURATION',
+    'dhcp_DEFAULT_LEASE_DURATION', 'dhcp_MAX_IPV4_HEADER_LEN', 'wudp_HEADER_LEN', 'wdhcp_SERVER_PORT', 'wdhcp_CLIENT_PORT',
+    'wdhcp_MAX_DNS_SERVER_COUNT',
     'slaac_MAX_RTR_SOLICITATIONS', 'slaac_RTR_SOLICITATION_INTERVAL',
     'wipv4_MIN_MTU', 'wipv6_MIN_MTU',
     'wipv4_HEADER_LEN', 'phy_IPV4_FRAGMENT_PAYLOAD_ALIGNMENT',
